@@ -146,7 +146,7 @@ func (r *Report) Finish(verifDir string, w *World, explanation string, notDecide
 			continue
 		}
 		for ki, k := range known {
-			if k.Status == "known" && k.Property == r.Property && k.Rule == o.Rule && k.Key == o.Key {
+			if k.Status == "known" && k.Property == r.Property && k.Rule == o.Rule && k.Key == stripVariant(o.Key) {
 				o.Known = true
 				usedKnown[ki] = true
 			}
@@ -314,4 +314,15 @@ func writeJSON(path string, v any) {
 	if err := os.WriteFile(path, append(b, '\n'), 0o644); err != nil {
 		fmt.Fprintf(os.Stderr, "write %s: %v\n", path, err)
 	}
+}
+
+// stripVariant removes the "[windows] " / "[386] " prefix the thorough tier puts
+// on obligations of a build variant: the same construct is the same finding.
+func stripVariant(key string) string {
+	if strings.HasPrefix(key, "[") {
+		if i := strings.Index(key, "] "); i > 0 {
+			return key[i+2:]
+		}
+	}
+	return key
 }
